@@ -226,6 +226,14 @@ class Folder:
         if isinstance(s, ast.AugAssign):
             cur = self.expr(s.target)
             v = self.expr(s.value)
+            if isinstance(cur, list) and isinstance(s.op, ast.Add) and isinstance(v, (list, tuple)):
+                cur.extend(v)                      # list += ... extends the same object (visible through every alias), as in Python
+                self.assign(s.target, cur)
+                return
+            if isinstance(cur, list) and isinstance(s.op, ast.Mult) and isinstance(v, int) and not isinstance(v, bool):
+                cur[:] = cur * v
+                self.assign(s.target, cur)
+                return
             self.assign(s.target, self.binop(s.op, cur, v, s))
             return
         if isinstance(s, ast.If):
@@ -376,6 +384,10 @@ class Folder:
                 return True
             if v is sp.false:
                 return False
+            if v.is_number:
+                return bool(v != 0)
+            if getattr(self, "generic_symbols", False):
+                return sp.simplify(v) != 0             # symbols stand for generic (non-zero) values
             raise Undecidable(f"truth of symbolic {v} in {norm(node)}")
         if isinstance(v, (Rec, Opaque)):
             return True
